@@ -16,7 +16,8 @@ BOUNDS = {
              'output names from a legal-name list (spaces, non-ASCII, leading dot, quotes, backslash, newline); build, unchanged '
              'build (served from cache), clean; plus field-wise comparison of the Cache object written and the one read back; '
              'plus a failing write of the new cache (OSError at the open, OSError at the data write, serialisation error after the '
-             'open) with and without a previous cache: previous records back field by field and used by the next build / no file left',
+             'open) with and without a previous cache: previous records back field by field and used by the next build / no file left; '
+             'plus a second build that keeps only the first root operation (a pure cache hit): the cache file then lists that build\'s outputs',
     'thorough': 'width 3 / two template-valued functions',
 }
 ASSUMPTIONS = [
@@ -25,7 +26,7 @@ ASSUMPTIONS = [
     'integers beyond CPython\'s int/str conversion limit (4300 digits) are outside the claim: json refuses them and the build '
     'fails and is rolled back',
 ]
-WITNESSES = {'quick': ['served-from-cache', 'failure-marker-survived', 'created-dirs-survived', 'cache-object-compared', 'cache-write-failed'],
+WITNESSES = {'quick': ['served-from-cache', 'failure-marker-survived', 'created-dirs-survived', 'cache-object-compared', 'cache-write-failed', 'shrunk-build-committed'],
              'thorough': ['served-from-cache']}
 
 # functions that are legitimately re-executed by an unchanged build: the one that failed (r.1) and the caller that caught a
@@ -45,6 +46,8 @@ def families(tier):
         {'name': 'names', 'params': {}, 'weight': 1, 'validate': 24},
         # the write of the new cache fails (open, data, or a value json refuses): the previous content is back / no file left
         {'name': 'writefail', 'params': {'depth': 1, 'width': 1, 'who': 'a'}, 'weight': 1, 'validate': 8},
+        # the next build asks for fewer root operations (all of them cache hits): the committed cache must describe that build
+        {'name': 'shrink', 'params': {'depth': 1, 'width': 1, 'who': 'a'}, 'weight': 1, 'validate': 4},
     ]
     if tier == 'quick':
         return q
@@ -141,6 +144,36 @@ def write_fails(eng, w, d, prog, versions, beh, target_sid, written, cache_mod):
     eng.sample({'family': 'writefail', 'previous_cache': prev, 'failure': how})
 
 
+def shrink(eng, w, d, prog, prog2, versions, beh, cache_mod):
+    """Build the full program, then a program that only keeps its first root operation (served from the cache): what the
+    second commit leaves in the cache file is the record of the second build, not of the first."""
+    sig = ('shrink',)
+    impl1, ref1 = d.build(prog, versions=versions, behaviour=beh)
+    d.guard_same('first')
+    if impl1[0] != 'ok':
+        return
+    impl2, ref2 = d.build(prog2, versions=versions, behaviour={f[0]: beh.get(f[0], 0) for f in prog2.functions})
+    d.guard_same('second')
+    if impl2[0] != 'ok':
+        return
+    eng.check('C16.shrink-served-from-cache', not [c for c in d.impl_calls if c != 'r.0.1'], sig, info={'calls': d.impl_calls})
+    c2 = cache_mod.Cache.read_immutable(w.cache)
+    recorded = sorted(p for p, op in c2._files.items() if not op.raised)
+    expected = sorted(d.state.outputs)
+    eng.check('C16.cache-describes-an-older-build', recorded == expected, sig,
+              info={'outputs in the cache file': [w.rel(p) for p in recorded], 'outputs of the last build': [w.rel(p) for p in expected]})
+    eng.check('C16.created-dirs', sorted(c2.created_dirs()) == sorted(d.state.created_dirs), sig,
+              info={'read': sorted(c2.created_dirs()), 'expected': sorted(d.state.created_dirs)})
+    eng.witness('shrunk-build-committed')
+    # a foreign file at a dropped output position is none of clean's business
+    dropped = w.p('o/r')
+    if w.fs.is_kind(dropped, ABSENT) and w.fs.is_kind(w.p('o'), DIR):
+        w.ext_write(dropped, eng.fresh_int('fcid'), eng.fresh_int('fmt', 0, 2 ** 62))
+    d.clean()
+    d.check_tree('C16.clean', sig)
+    eng.sample({'family': 'shrink'})
+
+
 def harness(eng, fam, P):
     from file_builder import FileBuilder
     from file_builder import cache as cache_mod
@@ -163,7 +196,8 @@ def harness(eng, fam, P):
             ('BF', 'o/r', {'mode': 'ok', 'name': 'rootbf'}, []),
             ('SB', 'd', {}, [('BF', 'o/r', {'mode': 'ok', 'catch': True, 'name': 'dup'}, [])]),
             ('Q', 'is_file', t1)]
-    prog = Program(eng, body)
+    shared = {}
+    prog = Program(eng, body, shared)
     w = World(eng, ['c', 'o', 'o/d'], cache_rel='c/cache', sandbox=getattr(eng, 'sandbox', None))
     eng.path_info.update({'value': repr(val)[:200], 'names': [n1, n2], 'who': who})
     beh = {}
@@ -189,6 +223,8 @@ def harness(eng, fam, P):
         w.bind(extra)
         if fam == 'writefail':
             return write_fails(eng, w, d, prog, versions, beh, target_sid, written, cache_mod)
+        if fam == 'shrink':
+            return shrink(eng, w, d, prog, Program(eng, body[:1] + body[-1:], shared), versions, beh, cache_mod)
         impl1, ref1 = d.build(prog, versions=versions, behaviour=beh)
         # whatever the build recorded (any legal name, any JSON value) must be writable: the commit may not fail where
         # the from-scratch reference succeeds
